@@ -50,6 +50,11 @@ type c16Env struct {
 	broker   *httptest.Server
 	relay    *httptest.Server
 	sf       *SnowflakeProxy
+	// start mode: every poll is a new session; the handler reports its arrival (with the
+	// token figures at that moment) and waits for the driver to hand it the session script
+	start   bool
+	arrived chan string
+	next    chan *c16Sess
 }
 
 func (e *c16Env) relayURL(i int) string {
@@ -85,11 +90,23 @@ func c16PollBody(offer, relayURL string) []byte {
 func (e *c16Env) handleProxy(w http.ResponseWriter, r *http.Request) {
 	body, _ := ioutil.ReadAll(r.Body)
 	_, _, _, clients, _, _, err := messages.DecodeProxyPollRequestWithRelayPrefix(body)
-	e.mu.Lock()
-	s := e.cur
 	if err != nil {
 		clients = -999999
 	}
+	if e.start {
+		e.arrived <- fmt.Sprintf("c%dh%dp%d", tokens.count(), c16ChLen(), clients)
+		select {
+		case s := <-e.next:
+			e.mu.Lock()
+			e.cur = s
+			e.mu.Unlock()
+		case <-time.After(60 * time.Second):
+			http.Error(w, "no script", http.StatusInternalServerError)
+			return
+		}
+	}
+	e.mu.Lock()
+	s := e.cur
 	e.polls = append(e.polls, clients)
 	idx := len(e.sessions) - 1
 	var n int
@@ -204,22 +221,24 @@ func (e *c16Env) handleRelay(w http.ResponseWriter, r *http.Request) {
 	}
 }
 
-func c16Guard(f func()) bool {
+func c16GuardFor(d time.Duration, f func()) bool {
 	done := make(chan struct{})
 	go func() { f(); close(done) }()
 	select {
 	case <-done:
 		return true
-	case <-time.After(3 * time.Second):
+	case <-time.After(d):
 		return false
 	}
 }
+
+func c16Guard(f func()) bool { return c16GuardFor(3*time.Second, f) }
 
 func c16ChLen() int { return len(tokens.ch) }
 
 // wait until count (and the channel length, when there is a channel) moved away from the given values
 func c16WaitChange(count int64, chl int) {
-	deadline := time.Now().Add(8 * time.Second)
+	deadline := time.Now().Add(3 * time.Second)
 	for time.Now().Before(deadline) && tokens.count() == count {
 		time.Sleep(2 * time.Millisecond)
 	}
@@ -301,7 +320,13 @@ func (e *c16Env) op(o string) string {
 		return e.result(false)
 	}
 	before, chl := tokens.count(), c16ChLen()
-	e.sf.runSession(genSessionID())
+	limit := 3 * time.Second
+	if kind == 't' || kind == 'n' {
+		limit += dataChannelTimeout
+	}
+	if !c16GuardFor(limit, func() { e.sf.runSession(genSessionID()) }) {
+		return "!blocked-session " + e.result(true)
+	}
 	switch kind {
 	case 'o', 'A':
 		select {
@@ -317,15 +342,65 @@ func (e *c16Env) op(o string) string {
 	return e.result(true)
 }
 
+func (e *c16Env) startOp(o string) string {
+	kind := o[0]
+	switch {
+	case kind == 'B' && len(o) == 1:
+		select {
+		case smp := <-e.arrived:
+			_ = smp
+			return "B0"
+		case <-time.After(7 * time.Second):
+			return "B1"
+		}
+	case strings.IndexByte("cd", kind) >= 0 && len(o) > 1:
+		r := e.op(o)
+		if strings.HasPrefix(r, "!") {
+			return r
+		}
+		return "-"
+	case len(o) == 1 && strings.IndexByte("ejsxkubrpagmoqAE", kind) >= 0:
+		if kind == 'E' {
+			kind = 'e'
+		}
+		s := &c16Sess{kind: kind, relayConn: make(chan struct{})}
+		if strings.IndexByte("brqagmoA", kind) >= 0 {
+			pc, offer, err := c16NewClient()
+			if err != nil {
+				return "!client " + err.Error()
+			}
+			s.client, s.offer = pc, offer
+		}
+		var smp string
+		select {
+		case smp = <-e.arrived:
+		case <-time.After(15 * time.Second):
+			return "!nopoll c" + strconv.FormatInt(tokens.count(), 10)
+		}
+		e.mu.Lock()
+		e.sessions = append(e.sessions, s)
+		e.mu.Unlock()
+		e.next <- s
+		if kind == 'o' {
+			select {
+			case <-s.relayConn:
+			case <-time.After(8 * time.Second):
+			}
+		}
+		return smp
+	}
+	return "!badop"
+}
+
 func c16Case(args []string) string {
-	if len(args) != 3 || (args[0] != "seq" && args[0] != "seq0") {
+	if len(args) != 3 || (args[0] != "seq" && args[0] != "seq0" && args[0] != "start" && args[0] != "start0") {
 		return "!badcase"
 	}
 	capacity, err := strconv.Atoi(args[1])
 	if err != nil {
 		return "!badcase"
 	}
-	e := &c16Env{}
+	e := &c16Env{start: strings.HasPrefix(args[0], "start"), arrived: make(chan string, 64), next: make(chan *c16Sess)}
 	mux := http.NewServeMux()
 	mux.HandleFunc("/proxy", e.handleProxy)
 	mux.HandleFunc("/answer", e.handleAnswer)
@@ -338,14 +413,27 @@ func c16Case(args []string) string {
 		RelayDomainNamePattern: "127.0.0.1$", AllowNonTLSRelay: true, ProxyType: "standalone",
 		EventDispatcher: event.NewSnowflakeEventDispatcher(),
 	}
-	e.sf.shutdown = make(chan struct{})
-	// what Start sets up
-	broker, err = newSignalingServer(e.sf.BrokerURL, false)
-	if err != nil {
-		return "!broker " + err.Error()
+	if e.start {
+		// black box: Start itself makes the tokens, probes the NAT type (the probe fails at once)
+		// and runs the loop
+		e.sf.STUNURL = "stun:127.0.0.1:1"
+		e.sf.NATProbeURL = e.broker.URL + "/probe"
+		tokens = nil
+		go e.sf.Start()
+		deadline := time.Now().Add(30 * time.Second)
+		for time.Now().Before(deadline) && len(e.arrived) == 0 {
+			time.Sleep(5 * time.Millisecond)
+		}
+	} else {
+		e.sf.shutdown = make(chan struct{})
+		// what Start sets up
+		broker, err = newSignalingServer(e.sf.BrokerURL, false)
+		if err != nil {
+			return "!broker " + err.Error()
+		}
+		config = webrtc.Configuration{}
+		tokens = newTokens(e.sf.Capacity)
 	}
-	config = webrtc.Configuration{}
-	tokens = newTokens(e.sf.Capacity)
 
 	var out []string
 	ops := strings.Split(args[2], ",")
@@ -353,7 +441,12 @@ func c16Case(args []string) string {
 		ops = nil
 	}
 	for _, o := range ops {
-		r := e.op(o)
+		var r string
+		if e.start {
+			r = e.startOp(o)
+		} else {
+			r = e.op(o)
+		}
 		out = append(out, r)
 		if strings.HasPrefix(r, "!") {
 			break
@@ -361,6 +454,12 @@ func c16Case(args []string) string {
 	}
 	// tear down: end every handler before the next case replaces the global tokens
 	close(e.sf.shutdown)
+	if e.start {
+		select {
+		case e.next <- &c16Sess{kind: 'e', relayConn: make(chan struct{})}:
+		case <-time.After(100 * time.Millisecond):
+		}
+	}
 	e.mu.Lock()
 	ss := e.sessions
 	e.mu.Unlock()
